@@ -242,15 +242,15 @@ def main():
     here = os.path.dirname(os.path.abspath(__file__))
     rec = {"id": spec["id"], "cwd": os.path.realpath(os.getcwd()),
            "ROOT": os.environ.get("ROOT"), "HERE": os.environ.get("HERE"),
-           "inp": [], "out": [], "amend_inp": [], "amend_out": []}
-    if spec.get("amend_inp") or spec.get("amend_out"):
-        amend(inp=spec.get("amend_inp", []), out=spec.get("amend_out", []))
+           "inp": [], "out": [], "amend_inp": [], "amend_out": [], "vol": [], "amend_vol": []}
+    if spec.get("amend_inp") or spec.get("amend_out") or spec.get("amend_vol"):
+        amend(inp=spec.get("amend_inp", []), out=spec.get("amend_out", []), vol=spec.get("amend_vol", []))
     for key in ("inp", "amend_inp"):
         for p in spec.get(key, []):
             with open(p) as fh:
                 fh.read()
             rec[key].append(os.path.realpath(p))
-    for key in ("out", "amend_out"):
+    for key in ("out", "amend_out", "vol", "amend_vol"):
         for p in spec.get(key, []):
             with open(p, "w") as fh:
                 fh.write(spec["id"])
@@ -258,6 +258,7 @@ def main():
     info = get_info()
     rec["info_inp"] = [os.path.realpath(str(p)) for p in info.inp]
     rec["info_out"] = [os.path.realpath(str(p)) for p in info.out]
+    rec["info_vol"] = [os.path.realpath(str(p)) for p in info.vol]
     rec["info_workdir"] = str(info.workdir)
     with open(os.path.join(here, "..", "steplog.jsonl"), "a") as fh:
         fh.write(json.dumps(rec) + "\\n")
@@ -315,6 +316,8 @@ def run_real(case):
                         else spell(rng, f"o/out_s{sid}.txt")],
                 "amend_inp": [spell(rng, rel(f)) for f in amend_files],
                 "amend_out": [spell(rng, f"am_s{sid}.txt")] if rng.random() < 0.4 else [],
+                "vol": [spell(rng, f"vol_s{sid}.log")] if rng.random() < 0.5 else [],
+                "amend_vol": [spell(rng, f"o/avol_s{sid}.log")] if rng.random() < 0.3 else [],
             }
             worker = rel("tools/w.py")
             if not worker.startswith("."):
@@ -336,7 +339,7 @@ def run_real(case):
             cmd = f"{worker} ' + shq(json.dumps({spec!r})) + '"
             lines.append(
                 f"step('{worker} ' + shq(json.dumps({spec!r})), inp={[worker] + spec['inp']!r}, "
-                f"out={spec['out']!r}, workdir={d!r})")
+                f"out={spec['out']!r}, vol={spec['vol']!r}, workdir={d!r})")
             del cmd
         return "\n".join(lines) + "\n"
 
@@ -420,7 +423,7 @@ def run_real(case):
             got_inp = sorted(rp_label(l) for l in inp_labels)
             want_inp = sorted(set(rec["inp"] + rec["amend_inp"] + [worker_real]))
             got_out = sorted(rp_label(l) for l in out_labels)
-            want_out = sorted(set(rec["out"] + rec["amend_out"]))
+            want_out = sorted(set(rec["out"] + rec["amend_out"] + rec["vol"] + rec["amend_vol"]))
             counters["real_paths_compared"] += len(got_inp) + len(got_out)
             if got_inp != want_inp:
                 vio("stored input labels do not designate the files the step opened",
@@ -432,6 +435,9 @@ def run_real(case):
                 if not os.path.isabs(l) and l != os.path.normpath(l):
                     vio("stored label is not normalised", l, witness)
             want_info_inp = sorted(set(rec["inp"] + [worker_real]))
+            if sorted(rec.get("info_vol", [])) != sorted(rec["vol"]):
+                vio("get_info() paths do not designate the declared files from the step's directory",
+                    f"{spec['id']}: info_vol={rec.get('info_vol')} want {rec['vol']}", witness)
             if sorted(rec["info_inp"]) != want_info_inp or sorted(rec["info_out"]) != sorted(rec["out"]):
                 vio("get_info() paths do not designate the declared files from the step's directory",
                     f"{spec['id']}: info_inp={rec['info_inp']} want {want_info_inp}; "
